@@ -114,6 +114,8 @@ func (vc *VC) unsupportedf(format string, a ...interface{}) {
 
 func (vc *VC) note(format string, a ...interface{}) { vc.notes[fmt.Sprintf(format, a...)] = true }
 
+func (vc *VC) isBoxedStream(kind, name string) bool { return vc.notes["\x00"+kind+":"+name] }
+
 func (vc *VC) fresh(prefix string) string {
 	vc.n++
 	return fmt.Sprintf("%s!%d", smtIdent(prefix), vc.n)
@@ -124,6 +126,12 @@ func (vc *VC) declare(name, sort string) {
 }
 
 func (vc *VC) define(name, sort, body string) {
+	if strings.HasPrefix(body, "(box_Pbufio_Reader ") {
+		vc.notes["\x00rd:"+name] = true
+	}
+	if strings.HasPrefix(body, "(box_Pbufio_Writer ") {
+		vc.notes["\x00wr:"+name] = true
+	}
 	vc.steps = append(vc.steps, &Step{Kind: sDecl, Text: fmt.Sprintf("(define-fun %s () %s %s)", name, sort, body)})
 }
 
